@@ -1116,6 +1116,61 @@ def b_sharp_corners(S):
         slice_from="geom_coords = get_trace_coord_points", default_num="Nat", join="tuple", nat_sub=True)
 
 
+def b_crop_helpers(S):
+    """`dissolve_multi_part_traces` (GeoDataFrame branch: rows with single-part geometry first, then every part of every multi-part row with
+    that row's data; ValueError for a multi-part row without parts, TypeError when something that is not a LineString is left) and
+    `is_empty_area` (an area counts only through the traces its index window reports). Rows are (data, geometry) pairs."""
+    src0 = S[GENERAL]
+    import textwrap
+
+    defs = [n for n in ast.parse(src0).body if isinstance(n, ast.FunctionDef) and n.name == "dissolve_multi_part_traces"]
+    if len(defs) != 3:
+        raise Untranslatable("dissolve_multi_part_traces: expected two typing overloads and one implementation")
+    impl = textwrap.dedent("\n".join(src0.split("\n")[defs[-1].lineno - 1: defs[-1].end_lineno]))
+    src = standalone(impl, "dissolve_multi_part_traces", [
+        (r"if isinstance\(traces, gpd\.GeoSeries\):\n        return gpd\.GeoSeries\(\n            list\(ls_traces\.geometry\.values\) \+ list\(chain\(\*as_linestrings_list\)\),\n            crs=traces\.crs,\n        \)\n", ""),
+        (r"new_row = row\.copy\(\)\n            new_row\[GEOMETRY_COLUMN\] = new_geom\n", "new_row = (row[0], new_geom)\n"),
+        (r"for \(_, row\), as_linestrings in zip\(mls_traces\.iterrows\(\), as_linestrings_list\):", "for row, as_linestrings in zip(mls_traces, as_linestrings_list):"),
+    ])
+    # the last definition of that name is the implementation (the first two are typing overloads)
+    if "GeoSeries(" in src.split("mls_bools")[1] or "row.copy" in src or "iterrows" in src:
+        raise Untranslatable("dissolve_multi_part_traces: rewriting of the GeoSeries branch / row copy failed")
+    C = {
+        "[isinstance(trace, MultiLineString) for trace in traces.geometry.values]": "(List.map (fun r => is_mls r.2) traces)",
+        "traces.loc[[isinstance(trace, MultiLineString) for trace in traces.geometry.values]]": "(List.filter (fun r => is_mls r.2) traces)",
+        "mls_traces.shape[0]": "(List.length mls_traces)",
+        "traces.loc[[not val for val in mls_bools]]": "(pyCompress traces (List.map (fun val => !val) mls_bools))",
+        "[mls_to_ls([geom]) for geom in mls_traces.geometry.values]": "(List.map (fun r => parts r.2) mls_traces)",
+        "row[0]": "row.1",
+        "ls_traces.crs == dissolved_rows_gdf.crs": "true",
+        "gpd.GeoDataFrame(dissolved_rows, crs=ls_traces.crs)": "dissolved_rows",
+        "pd.concat([ls_traces, dissolved_rows_gdf])": "(ls_traces ++ dissolved_rows_gdf)",
+        "all((isinstance(val, LineString) for val in dissolved_traces.geometry.values))": "(List.all dissolved_traces (fun r => is_ls r.2))",
+    }
+    ROWS = "List (D × G)"
+    T = {"[isinstance(trace, MultiLineString) for trace in traces.geometry.values]": "List Bool", "mls_bools": "List Bool",
+         "traces.loc[[isinstance(trace, MultiLineString) for trace in traces.geometry.values]]": ROWS, "mls_traces": ROWS, "mls_traces.shape[0]": "Nat",
+         "traces.loc[[not val for val in mls_bools]]": ROWS, "ls_traces": ROWS, "dissolved_rows": ROWS,
+         "[mls_to_ls([geom]) for geom in mls_traces.geometry.values]": "List (List G)", "as_linestrings_list": "List (List G)", "as_linestrings": "List G",
+         "row": "D × G", "row[0]": "D", "ls_traces.crs == dissolved_rows_gdf.crs": "Bool", "new_row": "D × G", "new_geom": "G", "gpd.GeoDataFrame(dissolved_rows, crs=ls_traces.crs)": ROWS, "dissolved_rows_gdf": ROWS,
+         "pd.concat([ls_traces, dissolved_rows_gdf])": ROWS, "dissolved_traces": ROWS,
+         "all((isinstance(val, LineString) for val in dissolved_traces.geometry.values))": "Bool"}
+    out = translate_function(
+        src, "dissolve_multi_part_traces", "dissolve_multi_part_traces", {"traces": ROWS}, ROWS, C, types=T, raises=True,
+        extra_params=[("{D}", "Type"), ("{G}", "Type"), ("is_mls", "G → Bool"), ("is_ls", "G → Bool"), ("parts", "G → List G")],
+        slice_from="mls_bools =", default_num="Nat", join="tuple")
+    C = {"area.geometry.values": "area", "traces.sindex": "()", "spatial_index_intersection(sindex, geom_bounds(area_polygon))": "(window area_polygon)",
+         "traces.iloc[intersection]": "(List.filterMap (fun i => traces[i]?) intersection)", "potential_traces.geometry.values": "potential_traces",
+         "trace.intersects(area_polygon)": "(meets trace area_polygon)"}
+    T = {"area.geometry.values": "List A", "traces.sindex": "Unit", "sindex": "Unit", "spatial_index_intersection(sindex, geom_bounds(area_polygon))": "List Nat", "intersection": "List Nat",
+         "traces.iloc[intersection]": "List G", "potential_traces": "List G", "potential_traces.geometry.values": "List G", "trace.intersects(area_polygon)": "Bool"}
+    src_e = standalone(src0, "is_empty_area", [(r"sindex: SpatialIndex = ", "sindex = ")])
+    out += "\n" + translate_function(
+        src_e, "is_empty_area", "is_empty_area", {"area": "List A", "traces": "List G"}, "Bool", C, types=T,
+        extra_params=[("{A}", "Type"), ("{G}", "Type"), ("window", "A → List Nat"), ("meets", "G → A → Bool")], slice_from="for area_polygon in", default_num="Nat", join="tuple")
+    return out
+
+
 def b_determine_intersect(S):
     """`determine_intersect`: which ordered pair of sets an X/Y node between two sets is recorded under, or ValueError"""
     fn = find_func(ast.parse(S[REL]), "determine_intersect")
@@ -1761,6 +1816,7 @@ ITEMS: List[Item] = [
     Item("BoundaryWeight", GENERAL, ["C08"], b_boundary_weight),
     Item("BranchBoundary", PARAMS, ["C08"], b_branch_boundary, extra_modules=[GENERAL, NETWORK]),
     Item("BoundaryLines", GENERAL, ["C08", "C16"], b_boundary_lines),
+    Item("CropHelpers", GENERAL, ["C07", "C09", "C16"], b_crop_helpers),
     Item("ParamTable", GENERAL, ["C08", "C20"], b_param_table),
     Item("TopologyParameters", PARAMS, ["C08", "C11"], b_topology_parameters, deps=["ParamTable"], extra_modules=[GENERAL]),
     Item("IsSet", GENERAL, ["C15"], b_is_set),
